@@ -44,6 +44,7 @@ type c08Entry struct {
 	ExportedCalls []string `json:"exported_calls"`
 	FieldCalls    []string `json:"field_calls"`
 	Writes        []string `json:"writes"`
+	Reads         []string `json:"reads"` // fields mentioned as recv.F anywhere in the body
 }
 
 // c08PtrUse: what one function does with a pointer-typed field of the struct, in source order
@@ -447,6 +448,20 @@ func c08StructFacts(p *pkgInfo, t string) c08Struct {
 						en.Writes = append(en.Writes, w.Field)
 					}
 				}
+				isF := map[string]bool{}
+				for _, f := range out.Fields {
+					isF[f.Name] = true
+				}
+				seenR := map[string]bool{}
+				ast.Inspect(fd.Body, func(x ast.Node) bool {
+					if se, ok := x.(*ast.SelectorExpr); ok {
+						if id, ok := se.X.(*ast.Ident); ok && id.Name == rv && isF[se.Sel.Name] && !seenR[se.Sel.Name] {
+							seenR[se.Sel.Name] = true
+							en.Reads = append(en.Reads, se.Sel.Name)
+						}
+					}
+					return true
+				})
 				out.Entries = append(out.Entries, en)
 			}
 		}
